@@ -304,8 +304,9 @@ def nsVal (kw : List (Char × NsVal)) (c : Char) : NsVal := (dictGet c kw).getD 
 def ratMul (a b : Rat) : Rat := a * b
 def strMul (a b : String) : String := a ++ b
 
-/-- `InteractionsEncoder(is).encode(**kw)` -/
-def encode (cfg : Cfg) (is : List Inter) (kw0 : List (Char × NsVal)) : Except Err Out :=
+/-- `InteractionsEncoder(is).encode(**kw)` with the multiplication of feature values as a
+parameter (`vmul` = exact arithmetic; a rounding multiplication for the float model) -/
+def encodeG (vmul : Rat → Rat → Rat) (cfg : Cfg) (is : List Inter) (kw0 : List (Char × NsVal)) : Except Err Out :=
   let kw := kwargs cfg is kw0
   let cps := crossPows cfg is
   let const := constant is
@@ -314,18 +315,22 @@ def encode (cfg : Cfg) (is : List Inter) (kw0 : List (Char × NsVal)) : Except E
   else if kw.any (fun cv => cv.2.isSparse) then
     let feats := fun c => sparseFeats c (nsVal kw c)
     let keyPows := fun c => pows cfg.fixPows strMul "" ((feats c).map (·.1)) (maxPow cps c)
-    let valPows := fun c => pows cfg.fixPows ratMul 1 ((feats c).map (·.2)) (maxPow cps c)
-    match crossAll strMul keyPows cps, crossAll ratMul valPows cps with
+    let valPows := fun c => pows cfg.fixPows vmul 1 ((feats c).map (·.2)) (maxPow cps c)
+    match crossAll strMul keyPows cps, crossAll vmul valPows cps with
     | .ok ks, .ok vs =>
       let enc := dictOf (zipT ks vs)
       .ok (.sparse (if const ≠ 0 then dictSet "const" const enc else enc))
     | .error e, _ => .error e
     | _, .error e => .error e
   else
-    let valPows := fun c => pows cfg.fixPows ratMul 1 (denseVals (nsVal kw c)) (maxPow cps c)
-    match crossAll ratMul valPows cps with
+    let valPows := fun c => pows cfg.fixPows vmul 1 (denseVals (nsVal kw c)) (maxPow cps c)
+    match crossAll vmul valPows cps with
     | .ok vs => .ok (.dense (if const ≠ 0 then const :: vs else vs))
     | .error e => .error e
+
+/-- `InteractionsEncoder(is).encode(**kw)` over exact arithmetic -/
+def encode (cfg : Cfg) (is : List Inter) (kw0 : List (Char × NsVal)) : Except Err Out :=
+  encodeG ratMul cfg is kw0
 
 /-! ## Specification of `encode` -/
 
@@ -336,10 +341,22 @@ def featsDense (kw : List (Char × NsVal)) (c : Char) : List Rat := denseVals (n
 /-- the named features of a namespace on sparse / string-valued inputs -/
 def featsSparse (kw : List (Char × NsVal)) (c : Char) : List (String × Rat) := sparseFeats c (nsVal kw c)
 
+def pairMulG (vmul : Rat → Rat → Rat) (a b : String × Rat) : String × Rat := (a.1 ++ b.1, vmul a.2 b.2)
 def pairMul (a b : String × Rat) : String × Rat := (a.1 ++ b.1, a.2 * b.2)
 def pairOne : String × Rat := ("", 1)
 
 def isSparseCall (kw : List (Char × NsVal)) : Bool := kw.any (fun cv => cv.2.isSparse)
+
+/-- the specification with the value multiplication as a parameter -/
+def encodeSG (vmul : Rat → Rat → Rat) (is : List Inter) (kw : List (Char × NsVal)) : Out :=
+  let ts := dedupFirst (strTerms is)
+  let const := constant is
+  if isSparseCall kw then
+    let enc := dictOf (termsS (pairMulG vmul) pairOne (featsSparse kw) ts)
+    .sparse (if const ≠ 0 then dictSet "const" const enc else enc)
+  else
+    let vs := termsS vmul 1 (featsDense kw) ts
+    .dense (if const ≠ 0 then const :: vs else vs)
 
 /-- what the property demands of `encode`: the constant first (when non-zero), then for every
 distinct term in the order given the outer product of the monomials of its namespaces; as a
@@ -355,10 +372,54 @@ def encodeS (is : List Inter) (kw : List (Char × NsVal)) : Out :=
     let vs := termsS ratMul 1 (featsDense kw) ts
     .dense (if const ≠ 0 then const :: vs else vs)
 
+/-- number of entries the dense encoding must have: one for a non-zero constant plus, per distinct
+term, the product over its namespaces of `C(n + p - 1, p)` (`n` features, power `p`) -/
+def chooseNat : Nat → Nat → Nat
+  | _, 0 => 1
+  | 0, _ + 1 => 0
+  | n + 1, k + 1 => chooseNat n k + chooseNat n (k + 1)
+
+def termLen (feats : Char → Nat) (t : List Char) : Nat :=
+  ((factors t).map (fun cp => chooseNat (feats cp.1 + cp.2 - 1) cp.2)).foldl (· * ·) 1
+
+def encodeLen (is : List Inter) (kw : List (Char × NsVal)) : Nat :=
+  (if constant is ≠ 0 then 1 else 0)
+    + ((dedupFirst (strTerms is)).map (termLen (fun c => (featsDense kw c).length))).foldl (· + ·) 0
+
 /-- a history of `encode` calls on one encoder object: the object keeps nothing between calls
 (`self.n`, `self.times` are counters that no result depends on), so the results are the
 call-by-call results -/
 def encodeHistory (cfg : Cfg) (is : List Inter) (calls : List (List (Char × NsVal))) : List (Except Err Out) :=
   calls.map (encode cfg is)
+
+/-! ## Callers (`coba/learners/linucb.py`, `lints.py`, `coba/environments/synthetics.py`) -/
+
+/-- Python truthiness of an entry of a feature list (`filter(None, …)`) -/
+def Inter.truthy : Inter → Bool
+  | .num q => decide (q ≠ 0)
+  | .term t => !t.isEmpty
+
+/-- `f.replace(c,'') if isinstance(f,str) else f` -/
+def Inter.dropNs (c : Char) : Inter → Inter
+  | .term t => .term (t.filter (· != c))
+  | .num q => .num q
+
+/-- the term list LinUCB / LinTS hand to `InteractionsEncoder`: the `features` argument itself, or — when
+the first context is empty — `list(set(filter(None,[f.replace('x','') …])))` (a set: order arbitrary in
+Python, first-occurrence order here; compared as a set) -/
+def learnerTerms (hasContext : Bool) (fs : List Inter) : List Inter :=
+  if hasContext then fs else dedupFirst ((fs.map (Inter.dropNs 'x')).filter Inter.truthy)
+
+/-- the term list `LinearSyntheticSimulation.read` hands to `InteractionsEncoder`:
+`sorted(set(filter(None,[f.replace(replace,'') …])), key=index)` -/
+def syntheticTerms (nCtx nAct : Nat) (fs : List (List Char)) : List Inter :=
+  let fs1 := if nCtx = 0 then fs.map (·.filter (· != 'x'))
+             else if nAct = 0 then fs.map (·.filter (· != 'a')) else fs
+  (dedupFirst (fs1.filter (fun t => !t.isEmpty))).map Inter.term
+
+/-- what `encode_eq_spec` needs of a term list (every term names a namespace), plus: only the
+namespaces the callers pass (`x`, `a`) are named -/
+def wellformedTerms (is : List Inter) : Bool :=
+  (strTerms is).all (fun t => !t.isEmpty && t.all (fun c => c == 'x' || c == 'a'))
 
 end Coba.C20
